@@ -103,6 +103,29 @@ class MetaMonitor(Monitor):
                        'parameter %r is positional-only in the result although every input has a positional-or-keyword parameter of that name there, and of the same names after it' % r.name, w, rp)
                 break
         interesting = False
+        # star parameters: when the inputs have the same named parameters (names and kinds, position by position) and
+        # every one of them has a star parameter of a kind -- whatever it is called on each side -- the result's star
+        # parameter of that kind stands for all of them: annotated like the annotated ones agree, otherwise not at all
+        named_ = [[(q.name, q.kind) for q in s.parameters.values() if q.kind not in (q.VAR_POSITIONAL, q.VAR_KEYWORD)] for s in args]
+        if len(args) >= 2 and all(n_ == named_[0] for n_ in named_[1:]):
+            for skind in (inspect.Parameter.VAR_POSITIONAL, inspect.Parameter.VAR_KEYWORD):
+                stars_ = [[q for q in s.parameters.values() if q.kind == skind] for s in args]
+                if not all(stars_):
+                    continue
+                rs = [q for q in value.parameters.values() if q.kind == skind]
+                if not rs:
+                    continue
+                ctx.count('C10.star_parameter_annotations_judged')
+                anns = [q[0].annotation for q in stars_ if q[0].annotation is not EMPTY]
+                want = anns[0] if anns and all(safe_eq(a, anns[0]) for a in anns[1:]) else EMPTY
+                got = rs[0].annotation
+                if not (got is want or (want is not EMPTY and got is not EMPTY and safe_eq(got, want))):
+                    if len(args) >= 3 and len(anns) >= 2 and want is EMPTY and got is not EMPTY:
+                        ctx.violation('C10', 'MetaMonitor', ANN_FOLD_MECH,
+                                      'n-ary merge annotates %r with %r although the annotated contributors disagree' % (rs[0].name, got), w, rp)
+                    else:
+                        self.V('merge-star-annotation', 'annotation of the star parameter %r is %r, expected %s' % (
+                            rs[0].name, got, 'none' if want is EMPTY else repr(want)), w, rp)
         for r in value.parameters.values():
             if r.kind in (r.VAR_POSITIONAL, r.VAR_KEYWORD):
                 continue
